@@ -33,7 +33,12 @@ class Gen:
             return self.container(t, d)
         return getattr(self, 'e_' + t)(d)
 
+    FAILS = ['undefined_var', 'nofn(1)', 'hd0["zz"]', 'hl0[9]', '"ab"[5]', 'pop([])', 'pop(hl0, 9)', 'map(1, v => v)', '("z" * 2)',
+             '__setitem_with_op__(hd0, "zz", "+=", 1)', 'rand(1, 2, 3)', 'filter("z", v => v)']
+
     def leaf(self, t):
+        if self.f.get('fail') and self.r.random() < self.f['fail']:
+            return self.pick(self.FAILS)
         vs = self.vars_of(t)
         if vs and self.r.random() < 0.5:
             return self.pick(vs)
@@ -332,3 +337,28 @@ def random_scenario(seed, nlines=None, depth=3, ncalls=None):
             src += '\nhcall(%s, %s)' % (g.lam(['num'], 'num', 2), g.expr('num', 1))
         calls.append({'src': src, 'n': 0, 'max': r.choice([None, None, 3, 8, 15, 30, 60, 200, 1000])})
     return {'names': [names], 'host': host, 'calls': calls, 'seed': seed}
+
+
+def failing_programs(seed, n):
+    """Random programs with language-level failures planted at random expression positions and as
+    statements (undefined names in reads / calls / compound assignments, missing keys and indices,
+    empty pop, non-container arguments), under budgets that may also run out."""
+    out = []
+    for i in range(n):
+        r = random.Random(seed * 7919 + i)
+        names = {'hl0': [1, 2], 'hd0': {'a': 1}}
+        host = {}
+        if r.random() < 0.3:
+            host['hcall'] = {'h': 'call', 'mode': r.choice(['propagate', 'swallow'])}
+        g = Gen(r, env={'hl0': ('list', 'num'), 'hd0': ('dict', 'num')}, features={'fail': r.choice([0.05, 0.15, 0.3]), 'nopow': True})
+        lines = []
+        for _ in range(r.randrange(1, 5)):
+            c = r.randrange(10)
+            if c == 0:
+                lines.append(r.choice(['u1 += 1', 'u2 *= 2', 'hd0["zz"] += 1', 'hl0[9] -= 1', 'u3 -= %s' % g.expr('num', 1)]))
+            else:
+                lines.append(g.stmt(r.randrange(1, 4)))
+        if 'hcall' in host:
+            lines.append('hcall(%s, 1)' % g.lam(['num'], 'num', 2))
+        out.append({'names': [names], 'host': host, 'calls': [{'src': '\n'.join(lines), 'n': 0, 'max': r.choice([None, 300, 40, 12])}]})
+    return out
